@@ -559,7 +559,7 @@ def boundary_tables():
 def boundary_envs():
     envs = []
     tabs = boundary_tables()
-    vars_list = [{}, {'is_large': enc(True), 'k': enc(3)}, {'x': enc('Uber'), 'r': enc(None)}]
+    vars_list = [{'nothing': enc(None)}, {'is_large': enc(True), 'k': enc(3), 'nothing': enc(None)}, {'x': enc('Uber'), 'r': enc(None)}]
     for i, t in enumerate(boundary_txns()):
         envs.append({'txn': t, 'vars': vars_list[i % 3], 'ds': tabs[(i + 3) % len(tabs)]})
     return envs
